@@ -249,7 +249,8 @@ impl<'a, 'tcx> BodyWalker<'a, 'tcx> {
 			let is_plain = match c.const_ {
 				MirConst::Val(..) => true,
 				MirConst::Unevaluated(uv, _) => uv.args.is_empty() && uv.promoted.is_none(),
-				MirConst::Ty(..) => false,
+				// range-pattern bounds and other type-level integer values
+				MirConst::Ty(_, ct) => ct.try_to_value().is_some(),
 			};
 			if is_plain {
 				if let Some(si) = c.const_.try_eval_scalar_int(tcx, self.typing_env) {
